@@ -6,6 +6,14 @@ props = [json.loads(l) for l in open(os.path.join(V, 'properties.jsonl'))]
 
 # id -> (level, engine, technique, level text, level note, design_ref)
 CHECKS = {
+ 'C20': ('exploration', 'E2-seq', 'bounded-exhaustive enumeration of names / ids / indices / descriptor field values through the real model package with inverse-function and injectivity oracles',
+         'Complete product over every string of length <=3 (quick 2) on an 11-character alphabet (letters, digit, hyphens, connector punctuation, unicode, hostile separators), 3 KSUIDs and 11 boundary indices for every path builder and parser, all <=3-component paths for generated-path detection, and the product of representative field values for the 7 descriptor types.',
+         'Names longer than 3 characters are not enumerated; the path code only splits on / and compares fixed file names.',
+         'DESIGN.md §3 C20'),
+ 'C21': ('exploration', 'E2-seq', 'exhaustive enumeration over the abstraction that decides separator choice (which characters >= 0 occur in values) x parameter shapes, reference decoder oracle',
+         'Every pair of target separators (g1,g2) in the printable range plus one non-ASCII character, with the driving value placed in every field, x sleep flag x 0..2 bundles/databases x optional fields; both FUSE and PG encoders; decoded with a reference implementation of the documented format under the shipped shell decoder constraints.',
+         'The reference decoder is the trusted statement of the format; the zsh script itself is not executed.',
+         'DESIGN.md §3 C21'),
  'C19': ('model_checking', 'E2-seq + E1-sched', 'exhaustive Add histories (depth<=3) x clock ticks and stateless DFS over all interleavings of concurrent appenders (Touch/GetAttr/Put) with tick placements, real wal.WAL in a synctest bubble, listing battery against a sorted-map model',
          'All sequential histories up to 3 appends over 5 payload classes with a second-boundary choice between steps, and all interleavings of 2 (thorough 3) appenders at store-call granularity with clock ticks; after each, every listing (from issued and synthetic tokens, max 1/2/3/1000) is compared with the model.',
          'Store listing honours a start key (reference store semantics); fake clock; KSUID randomness seeded.',
